@@ -90,8 +90,11 @@ def gen_cases(ctx):
     n = 60 if ctx.quick() else 1500
     cases = []
     for i in range(n):
-        w = worlds.gen_world(rng, tests_per_layer=(0, 4), kinds=["pass", "pass", "fail", "skipDeco", "error"],
-                             p_fault=0.0, p_write=0.0, nested=rng.random() < 0.4)
+        # (a quarter of the worlds: tests packages, plain directories, directories reachable under two names)
+        layout = rng.choice(worlds.LAYOUTS) if rng.random() < 0.25 else None
+        w = worlds.gen_world(rng, tests_per_layer=(0, 4) if layout is None else (1, 4),
+                             kinds=["pass", "pass", "fail", "skipDeco", "error"],
+                             p_fault=0.0, p_write=0.0, nested=rng.random() < 0.4, layout=layout)
         if rng.random() < 0.35:
             for l in w["layers"]:
                 if l["kind"] != "unit" and l["tearDown"] and rng.random() < 0.4:
@@ -135,7 +138,7 @@ def gen_cases(ctx):
         elif rng.random() < 0.15:
             # the empty pattern is a pattern too: it matches every name
             o["test"] = rng.choice([["t1 ", ""], ["", "t2 "], ["", "!t1 "], [""]])
-        if "pa.tests" in w["modules"] and rng.random() < 0.4:
+        if "pa.tests" in w["modules"] and layout is None and rng.random() < 0.4:
             # a directory under the search path that is also mapped into its package (--package-path): its files are
             # reached twice and loaded once
             o["pkgpath"] = "pa"
